@@ -18,6 +18,8 @@ import admin.verify_ledger_attestation as vl
 import admin.verify_sgx_attestation as vs
 from admin.misc import AdminError
 
+import os
+DMAX = 8 if os.environ.get("VERIF_TIER") == "thorough" else 3      # message length deviations -DMAX..+DMAX
 UI_PATH = "m/44'/0'/0'/0/0"
 PATHS = [UI_PATH, "m/44'/1'/0'/0/0", "m/44'/137'/0'/0/0", "m/44'/137'/1'/0/0", "m/44'/1'/1'/0/0", "m/44'/1'/2'/0/0"]
 
@@ -189,7 +191,7 @@ def powhsm_body(keys_hash, delta=0):
             "symbolic: signer target, header %s" % SIGNER_HEADERS[p - 2].decode(),
             bounds="Ledger verify: one input group symbolic per partition. UI: present / valid / header among 7 / attested key equals the "
                    "operator's or not. Signer: present / valid / header among 7 (current, legacy, foreign, version variants) / message "
-                   "length = documented length + delta, delta in -3..+3 / reported keys hash equals or not. Keys file among 6 variants, "
+                   "length = documented length + delta, delta in -3..+3 (T: -8..+8) / reported keys hash equals or not. Keys file among 6 variants, "
                    "root authority parses or not",
             examples=[(0, dict(present=True, valid=True, hi=0, same=True, delta=0, var=0, root_ok=True)),
                       (6, dict(present=True, valid=True, hi=4, same=True, delta=0, var=0, root_ok=True)),
@@ -201,7 +203,7 @@ def powhsm_body(keys_hash, delta=0):
 def ledger(present: bool, valid: bool, hi: int, same: bool, delta: int, var: int, root_ok: bool) -> bool:
     """
     pre: 0 <= hi <= 6
-    pre: -3 <= delta <= 3
+    pre: -DMAX <= delta <= DMAX
     pre: 0 <= var <= 5
     post: _
     """
@@ -264,7 +266,7 @@ def ledger(present: bool, valid: bool, hi: int, same: bool, delta: int, var: int
 
 @obligation(tier="quick", parts=8, timeout=200,
             part_names=lambda p: "symbolic: public keys / root" if p == 7 else "symbolic: quote target, header %s" % SIGNER_HEADERS[p].decode(),
-            bounds="SGX verify: quote target present / valid / header among 7 / length delta -3..+3 / keys hash equals or not; keys file among "
+            bounds="SGX verify: quote target present / valid / header among 7 / length delta -3..+3 (T: -8..+8) / keys hash equals or not; keys file among "
                    "6 variants; root of trust validates itself or not",
             examples=[(0, dict(present=True, valid=True, hi=0, same=True, delta=0, var=0, root_ok=True)),
                       (0, dict(present=True, valid=True, hi=0, same=True, delta=2, var=0, root_ok=True)),
@@ -273,7 +275,7 @@ def ledger(present: bool, valid: bool, hi: int, same: bool, delta: int, var: int
 def sgx(present: bool, valid: bool, hi: int, same: bool, delta: int, var: int, root_ok: bool) -> bool:
     """
     pre: 0 <= hi <= 6
-    pre: -3 <= delta <= 3
+    pre: -DMAX <= delta <= DMAX
     pre: 0 <= var <= 5
     post: _
     """
